@@ -135,7 +135,7 @@ def _generate(ctx, quick):
                 b, t = c.pop("bytes"), c.pop("type")
                 F.add(dict(proto=c["proto"], type=t, bytes=b), c, "%s:%d:%s" % (c["tname"], c["proto"], bytes(b).hex()))
             elif fam == "tstr":
-                F.add(dict(g=c["g"], s=c["s"], v=c["v"]), c, "%s:%s:%d" % (c["g"], c["s"], c["v"]))
+                F.add(dict(g=c["g"], s=c["s"], v=c["v"], i=c["i"]), c, "%s:%s:%d:%d" % (c["g"], c["s"], c["v"], c["i"] if c["g"] == "aggregate" else 0))
             else:
                 live.append(c)
         if fam == "live":
@@ -212,6 +212,7 @@ def classify(fam, lab, o, why):
             "unmarshalList": "unmarshal-huge-collection-length-alloc",
             "unmarshalMap": "unmarshal-huge-map-size-alloc",
             "Iter.SliceMap": "rows-without-columns-huge-rowcount-alloc",
+            "framer.readTypeInfo": "typeinfo-nested-element-count-alloc",
             "compileV2Metadata": "schema-component-index-out-of-range",
         }
         if site in alias:
@@ -220,7 +221,9 @@ def classify(fam, lab, o, why):
             what = lab.get("f") or lab.get("variant") or lab.get("mk") or ""
             return "alloc-unattributed-%s-%s" % (st, _slug(str(what)))
         return "alloc-" + _slug(site)
-    if o["out"] == "hang" or o.get("msg", "").startswith("SIGQUIT"):
+    if (o["out"] == "hang" or o.get("msg", "").startswith("SIGQUIT")) and "recursion" in o.get("msg", ""):
+        cls = "stack-overflow"      # the same unbounded recursion, caught before the stack limit was reached
+    elif o["out"] == "hang" or o.get("msg", "").startswith("SIGQUIT"):
         return "hang-%s-%s" % (fam, _slug(lab.get("pos", st)))
     if site == "framer.readInetAdressOnly":
         opcode_event = str(lab.get("kind", "")).startswith("EVENT") or (lab.get("f") == "header.opcode" and lab.get("val") == 12)
@@ -245,10 +248,14 @@ def classify(fam, lab, o, why):
         return "parsetype-collection-without-params"
     if site == "typeParser.parse":
         return "parsetype-collection-param-without-name" if cls == "nil-deref" else "parsetype-composite-or-reversed-without-params"
+    if site == "compileMetadata" and lab.get("g") == "aggregate":
+        return "schema-aggregate-function-missing-nil-deref"
     if site in ("compileV1Metadata", "compileMetadata") and fam == "tstr" and lab.get("g") != "compidx":
         return "schema-composite-without-types"
     if site == "compileV2Metadata" or (site in ("compileV1Metadata", "compileMetadata") and lab.get("g") == "compidx"):
         return "schema-component-index-out-of-range"
+    if site in ("Conn.executeQuery", "Conn.executeQueryAttempt", "Conn.executeBatch", "Conn.executeBatchAttempt") and cls == "index-out-of-range":
+        return "prepared-bind-metadata-without-columns"
     if site == "HostInfo.ConnectAddress":
         return "hostinfo-no-connect-address-panic"
     if site == "startupCoordinator.authenticateHandshake" and cls == "nil-deref":
